@@ -29,7 +29,7 @@
    revocation_names_bytes (C05). *)
 From Coq Require Import ZifyBool ZifyN ZifyNat.
 From Ucanto Require Import Base Varint Cid MessageBytes TokenBytes.
-From Ucanto Require Import Pattern Time Validator ValidatorSpec ValidatorProps TokenView ServerBytes.
+From Ucanto Require Import Pattern Time Validator ValidatorSpec ValidatorProps TokenView LinkId.
 Open Scope N_scope.
 
 Definition dag_cbor_code : N := 113.     (* 0x71 *)
@@ -243,7 +243,7 @@ Section Link.
   (* ---------------------------------------------------------------- *)
   (* the validator's world over a set of blocks                          *)
 
-  (* Links are numbered by ServerBytes.lid, an injective function of the CID bytes.  A block that
+  (* Links are numbered by LinkId.lid, an injective function of the CID bytes.  A block that
      is present gives a delegation (NewDelegation never fails); its token is what the accessors
      report: the fields when the bytes hash to the link, the empty token otherwise. *)
   Definition ustore_of (blocks : list (bstr * bstr)) : link -> option token :=
